@@ -248,7 +248,7 @@ class Family:
     max_paths = 200000
     time_budget = {'quick': 150, 'thorough': 900}
     validate_paths = 12   # translator-validation cases per instance (one model per explored path)
-    ignore_viol_kinds = ('lossy-trunc',)
+    ignore_viol_kinds = ('lossy-trunc', 'bitwise-range')
 
     def instances(self, tier):
         raise NotImplementedError
@@ -552,7 +552,7 @@ def specialize(v, sub):
     return v
 
 
-def check_path(ctx, ex, fam, inst, path, I, O, res, known_active, confirmed_known, tier):
+def check_path(ctx, ex, fam, inst, path, I, O, res, known_active, confirmed_known, tier, deadline=None):
     """discharge this path's obligations; replay candidates; classify known / violation / non-reproducing"""
     I_full = I
     if path.subst:
@@ -574,6 +574,11 @@ def check_path(ctx, ex, fam, inst, path, I, O, res, known_active, confirmed_know
             seen.add((k, str(c) if not isinstance(c, bool) else c))
             groups.append((k, '%s line %s %s' % (v.kind, v.line, v.detail), c))
     else:
+        rng = [v.cond for v in path.viols if v.kind == 'bitwise-range' and v.cond is not False]
+        if rng:
+            r, _ = model_for(ex, path, [z3.Or(*[c for c in rng if not isinstance(c, bool)] or [z3.BoolVal(True)])], timeout_ms=5000)
+            if r != 'unsat':
+                res['inconclusive'].append({'reason': 'outside-modelled-range', 'detail': 'bitwise operation on a symbolic integer beyond 16 bits'})
         try:
             sp = fam.spec(inst, I, O)
         except Unsupported as e:
